@@ -17,11 +17,19 @@ CONSTANTS MaxPkts,       \* user packets written per scenario
           EveryK,        \* chunk sizes of the uniform chunkings
           SingleCuts,    \* "none" | "class" | "all": single-cut chunkings
           CorrEveryK,    \* chunk sizes combined with a corruption (0 = one chunk)
-          LenMasks       \* masks tried on the low byte of a length
+          LenMasks,      \* masks tried on the low byte of a length
+          Plans          \* {} = every packet sequence up to MaxPkts; otherwise only these (coded, see Plan*)
 
-VARIABLES cls, cutm
+VARIABLES cls, cutm, plan
 
-mcvars == <<vars, cls, cutm>>
+mcvars == <<vars, cls, cutm, plan>>
+
+(* a plan fixes the crypto setting and the packet sequence (sampled by the harness):
+   plan = crypto + 100 * (d1 + 70 * d2 + 4900 * d3), d = 2 * rank of the shape in Shapes + flush + 1, 0 = end *)
+PlanCrypto(p) == p % 100
+PlanItem(p, i) == ((p \div 100) \div (IF i = 1 THEN 1 ELSE IF i = 2 THEN 70 ELSE 4900)) % 70
+PlanLen(p) == IF PlanItem(p, 1) = 0 THEN 0 ELSE IF PlanItem(p, 2) = 0 THEN 1 ELSE IF PlanItem(p, 3) = 0 THEN 2 ELSE 3
+Rank(s) == Cardinality({x \in Shapes : x < s})
 
 Types == << <<52, 18, 0, 0>>,        \* 1: 0x00001234
             <<1, 0, 0, 128>>,        \* 2: 0x80000001
@@ -38,13 +46,12 @@ RECURSIVE StartsOf(_, _, _)
 StartsOf(out, j, base) == IF j > Len(out) THEN <<>> ELSE <<base>> \o StartsOf(out, j + 1, base + out[j][3])
 
 (* corruption classes of a sealed stream w; only bytes after the handshake *)
-Classes(w, s, hsEnd) ==
+ClassesSt(w, s, hsEnd, st) ==
   IF w.enc THEN
     { [lo |-> b + 1, hi |-> b + Block, any |-> TRUE, mask |-> 1, kind |-> "block"] :
         b \in {x \in hsEnd..(w.n - 1) : (x - w.encFrom) % Block = 0} }
   ELSE
-    LET st == StartsOf(w.out, 1, 0)
-        J  == {j \in 1..Len(w.out) : w.out[j][2] > 2}
+    LET J  == {j \in 1..Len(w.out) : w.out[j][2] > 2}
         L0(j) == (Overhead + s[w.out[j][2]].len) % 256
     IN UNION { LET k == w.out[j][1]  o == st[j]  n == w.out[j][3] IN
         CASE k = "len" ->
@@ -62,49 +69,61 @@ Classes(w, s, hsEnd) ==
           [] OTHER -> {}
         : j \in J }
 
+Classes(w, s, hsEnd) == ClassesSt(w, s, hsEnd, StartsOf(w.out, 1, 0))
+
 (* chunkings *)
 CutSet(cm, w) ==
-  CASE cm[1] = "none"  -> {}
-    [] cm[1] = "every" -> {x \in 1..(w.n - 1) : x % cm[2] = 0}
-    [] cm[1] = "at"    -> {cm[2]}
+  CASE cm[1] = "none"  -> NoCuts
+    [] cm[1] = "every" -> [every |-> cm[2], at |-> {}]
+    [] cm[1] = "at"    -> [every |-> 0, at |-> {cm[2]}]
 InterestingCut(w, st, c, hsEnd) ==     \* a cut right before / one byte into a segment, or next to a block boundary
   \/ \E j \in 1..Len(w.out) : c = st[j] \/ c = st[j] + 1 \/ (w.out[j][1] = "body" /\ c = st[j] + w.out[j][3] - 1)
   \/ w.enc /\ (c - w.encFrom) % Block \in {0, 1, Block - 1}
-CutModes(w, hsEnd) ==
+CutModesSt(w, hsEnd, st) ==
   {<<"none", 0>>} \cup {<<"every", k>> : k \in EveryK}
   \cup (IF SingleCuts = "none" THEN {}
-        ELSE LET st == StartsOf(w.out, 1, 0) IN
-             {<<"at", c>> : c \in {x \in (hsEnd + 1)..(w.n - 1) : SingleCuts = "all" \/ InterestingCut(w, st, x, hsEnd)}})
+        ELSE {<<"at", c>> : c \in {x \in (hsEnd + 1)..(w.n - 1) : SingleCuts = "all" \/ InterestingCut(w, st, x, hsEnd)}})
+CutModes(w, hsEnd) == CutModesSt(w, hsEnd, StartsOf(w.out, 1, 0))
 CorrCutModes == {IF k = 0 THEN <<"none", 0>> ELSE <<"every", k>> : k \in CorrEveryK}
 
-Init == InitState /\ cls = NoClass /\ cutm = <<"none", 0>>
+Init == InitState /\ cls = NoClass /\ cutm = <<"none", 0>> /\ plan = 0
 
 SealMC ==
   /\ phase = "open" /\ bw # W0 /\ Len(wres) >= 1
-  /\ LET w == DoFlush(aw)
-         hsEnd == WAfterHandshake(cfg.enc, cfg.ver).n
-     IN \/ \E cm \in CutModes(w, hsEnd) :
+  /\ plan > 0 => Len(wres) = PlanLen(plan)
+  /\ UNCHANGED plan
+  /\ \E w \in {DoFlush(aw)}, hsEnd \in {WAfterHandshake(cfg.enc, cfg.ver).n} :
+        \/ \E cm \in CutModes(w, hsEnd) :
              Seal(CutSet(cm, w), NoCorr) /\ cls' = NoClass /\ cutm' = cm
         \/ \E cl \in Classes(w, sent, hsEnd), cm \in CorrCutModes :
              Seal(CutSet(cm, w), [pos |-> cl.lo, mask |-> cl.mask]) /\ cls' = cl /\ cutm' = cm
 
-Next ==
-  \/ (\E c \in Cryptos : Start(c \div 10 = 1, c % 10)) /\ UNCHANGED <<cls, cutm>>
-  \/ RdHandshake /\ UNCHANGED <<cls, cutm>>
-  \/ Negotiate /\ UNCHANGED <<cls, cutm>>
-  \/ WriteHs /\ UNCHANGED <<cls, cutm>>
-  \/ OpenB /\ UNCHANGED <<cls, cutm>>
-  \/ (Len(wres) < MaxPkts /\ \E s \in Shapes, f \in BOOLEAN : Write(ShapeType(s), ShapeLen(s), Len(wres) + 1, f)) /\ UNCHANGED <<cls, cutm>>
-  \/ SealMC
-  \/ Read /\ UNCHANGED <<cls, cutm>>
+StartMC ==
+  IF Plans = {} THEN (\E c \in Cryptos : Start(c \div 10 = 1, c % 10)) /\ plan' = 0
+  ELSE \E p \in Plans : Start(PlanCrypto(p) \div 10 = 1, PlanCrypto(p) % 10) /\ plan' = p
+
+WriteMC ==
+  /\ Len(wres) < (IF plan > 0 THEN PlanLen(plan) ELSE MaxPkts)
+  /\ \E s \in Shapes, f \in BOOLEAN :
+        /\ plan > 0 => PlanItem(plan, Len(wres) + 1) = 2 * Rank(s) + (IF f THEN 1 ELSE 0) + 1
+        /\ Write(ShapeType(s), ShapeLen(s), Len(wres) + 1, f)
+
+MCStart       == StartMC /\ UNCHANGED <<cls, cutm>>
+MCRdHandshake == RdHandshake /\ UNCHANGED <<cls, cutm, plan>>
+MCNegotiate   == Negotiate /\ UNCHANGED <<cls, cutm, plan>>
+MCWriteHs     == WriteHs /\ UNCHANGED <<cls, cutm, plan>>
+MCOpenB       == OpenB /\ UNCHANGED <<cls, cutm, plan>>
+MCWrite       == WriteMC /\ UNCHANGED <<cls, cutm, plan>>
+MCRead        == Read /\ UNCHANGED <<cls, cutm, plan>>
+
+Next == MCStart \/ MCRdHandshake \/ MCNegotiate \/ MCWriteHs \/ MCOpenB \/ MCWrite \/ SealMC \/ MCRead
 
 ---------------------------------------------------------------------------
 (* every member of a corruption class has the specified outcome of its representative *)
 ClassMembers ==
-  LET ps == {cls.lo, cls.hi, (cls.lo + cls.hi) \div 2} \cup {p \in cls.lo..cls.hi : p - cls.lo < 2 \/ cls.hi - p < 2}
-             \cup (IF cls.kind = "block" THEN cls.lo..cls.hi ELSE {})
-      ms == IF cls.any THEN {1, 4, 128, 255} ELSE {cls.mask}
-  IN ps \X ms
+  LET ps == {cls.lo, cls.hi, (cls.lo + cls.hi) \div 2, cls.lo + ((cls.hi - cls.lo) \div 3)}
+      ms == IF cls.any THEN {4, 255} ELSE {cls.mask}
+  IN (ps \X ms) \ {<<chn.corr.pos, chn.corr.mask>>}
 ClassUniform ==
   phase = "read" /\ Len(log) = 0 /\ cls.lo > 0 =>
     LET base == RunFrom(Cx(aw, sent, chn.corr), rd, <<>>, <<>>) IN
@@ -118,6 +137,6 @@ Emit ==
   phase = "done" /\ Len(sent) >= 2 =>
     PrintT(ToJson(<<"@@", [enc |-> cfg.enc, ver |-> cfg.ver, pk |-> wres, sent |-> sent, segs |-> aw.out,
                           nonceEnd |-> WNonce(cfg.ver).n, hsEnd |-> HsEnd, n |-> aw.n,
-                          cutm |-> cutm, cuts |-> SeqOfSet(chn.cuts), cls |-> cls,
+                          cutm |-> cutm, cuts |-> [every |-> chn.cuts.every, at |-> SeqOfSet(chn.cuts.at)], cls |-> cls,
                           log |-> log, pongs |-> pongs, rev |-> bw.out, revn |-> bw.n - HsEnd]>>))
 =============================================================================
